@@ -101,13 +101,21 @@ def _once(st, key, term):
     return False
 
 
+def assume_theorem(st, f):
+    """assume a fact that holds of every real value (well-formedness of dicts, theorems of sequences), and remember that
+    it is one: when a spec function is unfolded such facts are asserted next to the defining equation instead of
+    becoming antecedents of it"""
+    st.assume(f)
+    st.ghost["__theorems__"] = st.ghost.get("__theorems__", frozenset()) | {f.get_id()}
+
+
 def seq_member_facts(st, L):
     """every position of the sequence L holds a member of L (a theorem of sequences that the solvers do not find
     by themselves): forall i. 0 <= i < len(L) => contains(L, unit(L[i]))"""
     if _once(st, ("seqmem", L.get_id()), L):
         return
     i = z3.Int(fresh_name("mi"))
-    st.assume(z3.ForAll([i], z3.Implies(z3.And(0 <= i, i < z3.Length(L)), z3.Contains(L, z3.Unit(L[i])))))
+    assume_theorem(st, z3.ForAll([i], z3.Implies(z3.And(0 <= i, i < z3.Length(L)), z3.Contains(L, z3.Unit(L[i])))))
 
 
 def seq_position_witness(st, L, esort):
@@ -116,7 +124,7 @@ def seq_position_witness(st, L, esort):
         return
     pos = z3.Function(fresh_name("seqpos"), esort, z3.IntSort())
     x = z3.Const(fresh_name("px"), esort)
-    st.assume(z3.ForAll([x], z3.Implies(z3.Contains(L, z3.Unit(x)), z3.And(0 <= pos(x), pos(x) < z3.Length(L), L[pos(x)] == x))))
+    assume_theorem(st, z3.ForAll([x], z3.Implies(z3.Contains(L, z3.Unit(x)), z3.And(0 <= pos(x), pos(x) < z3.Length(L), L[pos(x)] == x))))
 
 
 def dict_wf(st, t, d, ex=None):
@@ -128,16 +136,16 @@ def dict_wf(st, t, d, ex=None):
         ks, dom = s.keys(d), s.dom(d)
         pos = z3.Function(fresh_name("keypos"), t.k.sort(), z3.IntSort())
         x = fresh(t.k, "wk")
-        st.assume(z3.ForAll([x], z3.Implies(z3.Select(dom, x), z3.And(0 <= pos(x), pos(x) < z3.Length(ks), ks[pos(x)] == x))))
+        assume_theorem(st, z3.ForAll([x], z3.Implies(z3.Select(dom, x), z3.And(0 <= pos(x), pos(x) < z3.Length(ks), ks[pos(x)] == x))))
     key = ("dictwf", d.get_id())
     if _once(st, key, d):
         return
     s = t.sort()
     ks, dom = s.keys(d), s.dom(d)
     i, j = z3.Int(fresh_name("wi")), z3.Int(fresh_name("wj"))
-    st.assume((z3.Length(ks) == 0) == (dom == z3.K(t.k.sort(), z3.BoolVal(False))))
-    st.assume(z3.ForAll([i], z3.Implies(z3.And(0 <= i, i < z3.Length(ks)), z3.Select(dom, ks[i]))))
-    st.assume(z3.ForAll([i, j], z3.Implies(z3.And(0 <= i, i < j, j < z3.Length(ks)), ks[i] != ks[j])))
+    assume_theorem(st, (z3.Length(ks) == 0) == (dom == z3.K(t.k.sort(), z3.BoolVal(False))))
+    assume_theorem(st, z3.ForAll([i], z3.Implies(z3.And(0 <= i, i < z3.Length(ks)), z3.Select(dom, ks[i]))))
+    assume_theorem(st, z3.ForAll([i, j], z3.Implies(z3.And(0 <= i, i < j, j < z3.Length(ks)), ks[i] != ks[j])))
 
 
 def set_iteration_order(st, v: Val) -> Val:
@@ -537,8 +545,27 @@ def _reversed(ex, st, args, kwargs, node):
 
 def _minmax(which):
     def f(ex, st, args, kwargs, node):
-        if kwargs:
-            raise Unsupported(f"{which}(key=/default=)", node)
+        dflt = kwargs.get("default")
+        if set(kwargs) - {"default"}:
+            raise Unsupported(f"{which}(key=)", node)
+        args = [materialize(ex, a) for a in args]
+        if dflt is not None:
+            # max(c, default=d): d when c is empty (no ValueError), else the extremum
+            if len(args) != 1:
+                raise Unsupported(f"{which}(a, b, default=)", node)
+            info = ex.iter_info(args[0], st, node)
+            if info.kind == "concrete":
+                return dflt if not info.items else f(ex, st, args, {}, node)
+            empty = (info.n == 0) if info.kind == "indexed" else (info.set_term == z3.K(info.elem.sort(), z3.BoolVal(False)))
+            from .exprs import pop_guards, push_guard
+
+            mark = len(st.pc)
+            push_guard(st, z3.Not(empty))
+            try:
+                m = f(ex, st, args, {}, node)
+            finally:
+                pop_guards(st, mark)
+            return ops.ite(empty, dflt, m)
         if len(args) >= 2:
             if all(is_const(a) for a in args):
                 return Val.const((min if which == "min" else max)(*[a.py for a in args]))
@@ -1136,8 +1163,9 @@ def value_method(ex, st, recv: Val, name, args, kwargs, node) -> Val:
                 f = z3.Function("str_join", z3.StringSort(), z3.SeqSort(z3.StringSort()), z3.StringSort())
                 return Val(T.STR, f(s, lift(a)))
             raise Unsupported("str.join of a symbolic iterable", node)
-        if name in ("lower", "upper", "strip", "title", "lstrip", "rstrip") and (not args or is_const(args[0])):
-            key = name + ("_" + repr(args[0].py) if args else "")
+        if name in ("lower", "upper", "strip", "title", "lstrip", "rstrip", "zfill", "replace", "capitalize", "swapcase", "casefold") and all(is_const(a) for a in args) and not kwargs:
+            # an uninterpreted (deterministic) function of the receiver, one symbol per method + constant arguments
+            key = name + ("_" + "_".join(repr(a.py) for a in args) if args else "")
             f = z3.Function("str_" + "".join(c if c.isalnum() else "_" for c in key), z3.StringSort(), z3.StringSort())
             return Val(T.STR, f(s))
         if name == "ljust" and is_const(args[0]) and len(args) == 1:
@@ -1154,7 +1182,28 @@ def value_method(ex, st, recv: Val, name, args, kwargs, node) -> Val:
                 out = z3.If(ln == l, z3.Concat(s, z3.StringVal(" " * (n - l))), out)
             return Val(T.STR, out)
         if name == "format":
-            raise Unsupported("str.format with symbolic arguments", node)
+            # a literal template whose fields are all plain `{}`: concatenation of str() of the arguments
+            import string as _string
+
+            if not is_const(recv) or kwargs:
+                raise Unsupported("str.format with a symbolic template / keyword arguments", node)
+            parts, k = [], 0
+            for lit, field, spec, conv in _string.Formatter().parse(recv.py):
+                if lit:
+                    parts.append(Val.const(lit))
+                if field is None:
+                    continue
+                if field != "" or spec or conv:
+                    raise Unsupported(f"str.format field {{{field}{'!' + conv if conv else ''}{':' + spec if spec else ''}}} with symbolic arguments", node)
+                if k >= len(args):
+                    raise Unsupported("str.format arity", node)
+                parts.append(ex.to_str(ex.deopt(args[k], st, node), node))
+                k += 1
+            if k != len(args):
+                raise Unsupported("str.format arity", node)
+            if all(is_const(p_) for p_ in parts):
+                return Val.const("".join(p_.py for p_ in parts))
+            return Val(T.STR, z3.Concat(*[lift(p_, T.STR) for p_ in parts]) if len(parts) > 1 else lift(parts[0], T.STR))
         if name == "encode" or name == "decode":
             raise Unsupported("str.encode/decode", node)
         raise Unsupported(f"str.{name}", node)
